@@ -82,6 +82,9 @@ func (e *apiEnv) concRequests(r interface{ Intn(int) int }, n int) []concReq {
 	for i := 0; i < n; i++ {
 		obj, sub := objs[r.Intn(len(objs))], subs[r.Intn(len(subs))]
 		rel := []string{"viewers", "view", "ok"}[r.Intn(3)]
+		if rel == "view" && e.viewPerm != "" {
+			rel = e.viewPerm
+		}
 		q := url.Values{"namespace": {"Doc"}, "object": {obj}, "relation": {rel}, "subject_id": {sub}}
 		switch r.Intn(4) {
 		case 0:
@@ -234,7 +237,7 @@ func streamConc(t *testing.T, o *Out, race bool) {
 	r := newRand()
 	n := envInt("VERIF_N", 20)
 	var env *apiEnv
-	var tenantA, tenantB *apiEnv
+	var tenantA, tenantB, tenantC *apiEnv
 	var tenantRelease func()
 	tenantUses := 0
 	defer func() {
@@ -263,7 +266,7 @@ func streamConc(t *testing.T, o *Out, race bool) {
 				if tenantRelease != nil {
 					tenantRelease()
 				}
-				tenantA, tenantB, tenantRelease = newTenantAPIEnv(t)
+				tenantA, tenantB, tenantC, tenantRelease = newTenantAPIEnv3(t)
 				tenantUses = 0
 			}
 			tenantUses++
@@ -272,6 +275,25 @@ func streamConc(t *testing.T, o *Out, race bool) {
 				t.Fatal(err)
 			}
 			reqs = append(envA.concRequests(r, 2+nreq/2), envB.concRequests(r, 2+nreq/2)...)
+			reqs = append(reqs, tenantC.concRequests(r, 2+nreq/3)...)
+			// tenant C's permission Doc#see is tenant A's Doc#view under another name, over the same
+			// stored state: the two answer alike, whoever was served first
+			for k := 0; k < 3; k++ {
+				obj, sub := []string{"a", "b", "c", "d"}[r.Intn(4)], []string{"alice", "bob", "eve"}[r.Intn(3)]
+				qa := url.Values{"namespace": {"Doc"}, "object": {obj}, "relation": {"view"}, "subject_id": {sub}}
+				qc := url.Values{"namespace": {"Doc"}, "object": {obj}, "relation": {"see"}, "subject_id": {sub}}
+				ta, tc := check.OpenAPIRouteBase+"?"+qa.Encode(), check.OpenAPIRouteBase+"?"+qc.Encode()
+				ea, ec := envA, tenantC
+				reqs = append(reqs, concReq{"tenant-twin " + qa.Encode(), func() string {
+					c1, b1, p1 := ea.do(ea.read, "GET", ta, nil)
+					c2, b2, p2 := ec.do(ec.read, "GET", tc, nil)
+					x, y := canonBody(c1, b1)+p1, canonBody(c2, b2)+p2
+					if x != y {
+						return "TENANTS-DIFFER view(A)=" + x + " see(C)=" + y
+					}
+					return x
+				}})
+			}
 			r.Shuffle(len(reqs), func(a, b int) {
 				// keep every batch next to its batch-as-singles twin
 				if reqs[a].name == "batch" || reqs[b].name == "batch" || reqs[a].name == "batch-as-singles" || reqs[b].name == "batch-as-singles" {
@@ -333,6 +355,12 @@ func streamConc(t *testing.T, o *Out, race bool) {
 				same = 0
 				if diff == "" {
 					diff = fmt.Sprintf("batch answers %.200s, its entries one by one %.200s", solo[j-1], solo[j])
+				}
+			}
+			if strings.HasPrefix(solo[j], "TENANTS-DIFFER") || strings.HasPrefix(got[j], "TENANTS-DIFFER") {
+				same = 0
+				if diff == "" {
+					diff = fmt.Sprintf("%s: %.300s", reqs[j].name, solo[j]+" / "+got[j])
 				}
 			}
 			if got[j] != solo[j] {
